@@ -1156,6 +1156,24 @@ fn run_case(case: &Case, obs: &mut Obs) -> Result<(), Fail> {
         return Ok(());
     };
 
+    // LIFE CYCLE: the collection is `Serialize + Deserialize` (it is configuration and part of persisted state): a copy
+    // restored from its own JSON must equal it and resolve every name and index exactly as the original does; so must a
+    // clone
+    obs.events += 1;
+    obs.cells.push("route:restored_from_own_json");
+    let text = serde_json::to_string(&ii).map_err(|e| ("collection_changed_by_persisting_and_restoring", format!("does not serialise: {e}")))?;
+    let copy: IndexedInstruments = serde_json::from_str(&text).map_err(|e| ("collection_changed_by_persisting_and_restoring", format!("does not load from its own JSON: {e}")))?;
+    obs.checks += 1;
+    if copy != ii {
+        return Err(("collection_changed_by_persisting_and_restoring", "the copy restored from the collection's own JSON differs from it (==)".to_string()));
+    }
+    for (what, other) in [("the copy restored from its own JSON", &copy), ("a clone", &ii.clone())] {
+        match catch(|| check_indexed(other, &m, true, &mut rng, obs)) {
+            Ok(r) => r.map_err(|(sig, d)| (sig, format!("on {what}: {d}")))?,
+            Err(msg) => return Err(("panic_in_index_lookup", format!("panic while reading {what}: {msg}"))),
+        }
+    }
+
     match catch(|| check_engine(&ii, &m, case.balance_seed, obs)) {
         Ok(r) => r?,
         Err(msg) => return Err(("panic_in_engine_state", format!("panic while building / reading EngineState: {msg}"))),
@@ -1387,8 +1405,9 @@ fn gen_case(rng: &mut Rng, small: bool) -> Case {
     Case { defs, orders, balance_seed: rng.next_u64(), exec_seed: rng.next_u64(), light: small }
 }
 
-const FLOOR: [&str; 16] = [
+const FLOOR: [&str; 17] = [
     "route:instrument_configs",
+    "route:restored_from_own_json",
     "exchanges>=2",
     "shared_asset_name_across_exchanges",
     "exact_duplicate_definition",
